@@ -228,9 +228,28 @@ def run(tier, seed):
         for sd in range(12 if tier == "quick" else 200):
             rec.case("random", (tuple(shape), tuple(dens), sd))
             check_random(rec, "random", shape, dens, sd)
+    # at scale: long and wide nests
+    for dims in ([40], [12, 15], [20, 3], [6, 5, 7], [30, 2, 2]):
+        for _ in range(6 if tier == "quick" else 80):
+            dens = rnd.choice([0.1, 0.5, 0.95])
+
+            def rs(ds):
+                if len(ds) == 1:
+                    return [rnd.choice([1, 2, 2.5, 3]) if rnd.random() < dens else 0 for _q in range(ds[0])]
+                return [rs(ds[1:]) for _q in range(ds[0])]
+            nest = rs(dims)
+            rec.case("scale", repr(nest))
+            check_nest(rec, "scale", nest, 0, rnd.random() < 0.5)
+            t = Tensor.fromUncompressed(["R%d" % i for i in range(len(dims))], nest, name="big")
+            yaml_roundtrip(rec, "scale", t, dict(kind="nest", nest=nest))
+    for shape, dens in (([40], [1]), ([12, 9], [1, 1]), ([30], [0.4]), ([8, 8, 4], [0.7, 0.5, 0.5])):
+        for sd in range(4 if tier == "quick" else 50):
+            rec.case("scale", ("random", tuple(shape), tuple(dens), sd))
+            check_random(rec, "scale", shape, dens, sd)
     return rec.result("every rectangular nest for 14 dimension sets of depth 1-3 over {0,1,2} (depth 3: {0,1}), as fiber and as tensor, leaf default 0 and 1; "
                       "seeded random nests of depth 3-4 with float entries and all-default blocks; YAML files and dictionary forms for every other depth-2 "
-                      "tree, nests with floats, rank-0 tensors, transformed (split/swizzled/flattened) tensors; fromRandom over seeds at density 1 and < 1")
+                      "tree, nests with floats, rank-0 tensors, transformed (split/swizzled/flattened) tensors; fromRandom over seeds at density 1 and < 1; "
+                      "plus seeded random nests at scale (dimensions up to 40) with YAML round trips")
 
 
 def _zero(x):
